@@ -1593,7 +1593,10 @@ fn forward_device_data(
         let skip_current_client = Some(&outgoing.client_id) != shared_group.current_client();
 
         if skip_current_client {
-            return if caughtup {
+            // Parked (woken by the next publish only) when the GROUP has nothing left to
+            // hand out. While it has, this member stays scheduled: its turn can come by the
+            // turn holder forwarding or leaving, and neither wakes a parked request
+            return if caughtup && start == next {
                 ConsumeStatus::FilterCaughtup
             } else {
                 ConsumeStatus::SkipRequest
